@@ -17,7 +17,7 @@ PREPS = gen.REPS + ['mul']
 
 
 def cases(tier, seed):
-    n = 320 if tier == 'quick' else 8000
+    n = 320 if tier == 'quick' else 16000
     return [('bil', i) for i in range(n)]
 
 
